@@ -1,0 +1,94 @@
+//go:build verif
+
+package yoda
+
+// Verification hooks (build tag `verif`, add-only). Nothing in this file is compiled into the
+// normal build. It lets an external harness construct a Context with injected dependencies and
+// call the unexported request handlers of the daemon.
+
+import (
+	"time"
+
+	abci "github.com/cometbft/cometbft/abci/types"
+	rpcclient "github.com/cometbft/cometbft/rpc/client"
+
+	"github.com/cosmos/cosmos-sdk/crypto/keyring"
+	sdk "github.com/cosmos/cosmos-sdk/types"
+
+	band "github.com/bandprotocol/chain/v3/app"
+	"github.com/bandprotocol/chain/v3/pkg/filecache"
+	"github.com/bandprotocol/chain/v3/x/oracle/types"
+	"github.com/bandprotocol/chain/v3/yoda/executor"
+)
+
+// VerifOptions are the injected dependencies of a Context built for verification.
+type VerifOptions struct {
+	App             *band.BandApp
+	Client          rpcclient.Client
+	Validator       sdk.ValAddress
+	Keys            []*keyring.Record
+	Executor        executor.Executor
+	FileCacheDir    string
+	MaxTry          uint64
+	RPCPollInterval time.Duration
+	PendingMsgsCap  int // 0 = unbuffered, as in runCmd
+}
+
+// NewVerifContext mirrors the field initialisation of runCmd with injected dependencies.
+func NewVerifContext(o VerifOptions) *Context {
+	return &Context{
+		bandApp:            o.App,
+		client:             o.Client,
+		validator:          o.Validator,
+		keys:               o.Keys,
+		executor:           o.Executor,
+		fileCache:          filecache.New(o.FileCacheDir),
+		maxTry:             o.MaxTry,
+		rpcPollInterval:    o.RPCPollInterval,
+		pendingMsgs:        make(chan ReportMsgWithKey, o.PendingMsgsCap),
+		freeKeys:           make(chan int64, len(o.Keys)),
+		keyRoundRobinIndex: -1,
+		pendingRequests:    make(map[types.RequestID]bool),
+	}
+}
+
+// SetVerifGlobals sets the package-level configuration used by the handlers.
+func SetVerifGlobals(chainID string, keybase keyring.Keyring) {
+	cfg.ChainID = chainID
+	kb = keybase
+}
+
+// VerifHandleRequest runs handleRequest synchronously (the caller chooses the goroutine).
+func VerifHandleRequest(c *Context, l *Logger, id uint64) {
+	handleRequest(c, l, types.RequestID(id))
+}
+
+// VerifHandleTransaction runs handleTransaction synchronously (it spawns its own goroutines).
+func VerifHandleTransaction(c *Context, l *Logger, tx abci.TxResult) {
+	handleTransaction(c, l, tx)
+}
+
+// VerifMarkPending records a request id as found pending at start-up (runImpl does this before it
+// spawns handleRequest for the id).
+func (c *Context) VerifMarkPending(id uint64) {
+	c.pendingRequests[types.RequestID(id)] = true
+}
+
+// VerifPendingMsgs gives read access to the queue of reports awaiting submission.
+func (c *Context) VerifPendingMsgs() <-chan ReportMsgWithKey {
+	return c.pendingMsgs
+}
+
+// VerifFileCache gives access to the daemon's executable cache (to pre-populate it).
+func (c *Context) VerifFileCache() filecache.Cache {
+	return c.fileCache
+}
+
+// VerifMsg returns the report message of a queued entry.
+func (m ReportMsgWithKey) VerifMsg() *types.MsgReportData { return m.msg }
+
+// VerifKeyIndex returns the index of the reporter key chosen for the entry.
+func (m ReportMsgWithKey) VerifKeyIndex() int64 { return m.keyIndex }
+
+// VerifExecVersions returns the executor versions recorded for the entry.
+func (m ReportMsgWithKey) VerifExecVersions() []string { return m.execVersion }
